@@ -147,8 +147,10 @@ def expr_and_kinks(c):
 
 def main():
   rep = vlib.Report(PROP, "proof")
-  info = vlib.build_obligations(PROP)
-  errs = rep.obligations(info, "coqc -Q coq/theories QV coq/theories/Properties/C06.v")
+  from translate import retgen
+  rgen, _names = retgen.emit(vlib.GEN)
+  info = vlib.build_obligations(PROP, gen_files=[rgen], extra_files=[os.path.join(vlib.COQ, "theories", "Link", "RetLink.v")])
+  errs = rep.obligations(info, "python3 tools/translate/retgen.py coq/gen && coqc coq/gen/RetGen.v && coqc coq/theories/Link/RetLink.v && coqc coq/theories/Properties/C06.v")
   for e in errs:
     rep.violation("obligation-" + os.path.basename(e["file"]), "proof obligation no longer checks: " + e["error"][-400:],
                   {"file": e["file"]}, no_input=True)
